@@ -29,6 +29,7 @@ pub open spec fn texts(s: Seq<&str>) -> Seq<Seq<char>> { Seq::new(s.len(), |i: i
 pub fn route_path_to_segments(path: &str) -> (r: Vec<&str>)
     ensures texts(r@) == template_of(path@)
 { unimplemented!() }
+/// (unit V12 verifies the real PathSegment::from as a composition of std string functions; K15 on short real strings)
 pub uninterp spec fn seg_of(s: Seq<char>) -> PathSegment;
 impl PathSegment {
     #[verifier::external_body]
